@@ -145,6 +145,7 @@ type RNodeOpt struct {
 	MaxDelay       time.Duration
 	Jitter         bool
 	Extra          []vivid.ActorSystemOption
+	Cluster        []vivid.ClusterOption // non-nil: enable the cluster with these options
 }
 
 // StartRNode creates and starts a system with remoting on addr under node tag tag, and waits for its listener.
@@ -164,6 +165,9 @@ func StartRNode(r *R, nw *simnet.Net, tag int, addr string, o RNodeOpt) *RNode {
 			ro.ReconnectMaxDelay = o.MaxDelay
 		}
 		ro.ReconnectJitter = o.Jitter
+		if o.Cluster != nil {
+			ro.ClusterOptions = vivid.NewClusterOptions(o.Cluster...)
+		}
 		opts := []vivid.ActorSystemOption{vivid.WithActorSystemLogger(log.NewSilentLogger()), vivid.WithActorSystemRemoting(addr), vivid.WithActorSystemRemotingOptions(ro)}
 		if o.Codec {
 			opts = append(opts, vivid.WithActorSystemCodec(harnessCodec{}))
